@@ -1122,3 +1122,168 @@ Lemma search_by_ski_spec (t : spki_table) s :
 Proof. reflexivity. Qed.
 
 End SpkiProofs.
+
+(* ------------------------------------------------------------------------ *)
+(* The specification: a table is a duplicate-free list of records            *)
+(* ------------------------------------------------------------------------ *)
+Definition sp_add (l : list entry) (e : entry) : Z * list entry * list callback :=
+  if mem e l then (SPKI_DUPLICATE_RECORD, l, []) else (SPKI_SUCCESS, l ++ [e], [(e, true)]).
+
+Definition sp_remove (l : list entry) (e : entry) : Z * list entry * list callback :=
+  if mem e l then (SPKI_SUCCESS, remove_first (key_entry_cmp e) l, [(e, false)])
+  else (SPKI_RECORD_NOT_FOUND, l, []).
+
+Definition sp_src_remove (l : list entry) (s : Z) : Z * list entry * list callback :=
+  (SPKI_SUCCESS, filter (fun e => negb (e_src e =? s)) l,
+   map (fun e => (e, false)) (filter (fun e => e_src e =? s) l)).
+
+Definition sp_get_all (l : list entry) (a s : Z) : list entry :=
+  filter (fun e => (e_asn e =? a) && (e_ski e =? s)) l.
+
+Definition sp_search_by_ski (l : list entry) (s : Z) : list entry := filter (fun e => e_ski e =? s) l.
+
+(* copy: the records of src not from source s, in order, until one is already in dst *)
+Fixpoint sp_copy_walk (l : list entry) (s : Z) (dst : list entry) (cbs : list callback)
+  : Z * list entry * list callback :=
+  match l with
+  | [] => (SPKI_SUCCESS, dst, cbs)
+  | e :: r =>
+    if negb (e_src e =? s) then
+      if mem e dst then (SPKI_ERROR, dst, cbs) else sp_copy_walk r s (dst ++ [e]) (cbs ++ [(e, true)])
+    else sp_copy_walk r s dst cbs
+  end.
+Definition sp_copy (src dst : list entry) (s : Z) := sp_copy_walk src s dst [].
+
+Fixpoint sp_diff_walk (l : list entry) (s : Z) (old : list entry) (cbs : list callback)
+  : list entry * list callback :=
+  match l with
+  | [] => (old, cbs)
+  | e :: r =>
+    if e_src e =? s then
+      if mem e old then sp_diff_walk r s (remove_first (key_entry_cmp e) old) cbs
+      else sp_diff_walk r s old (cbs ++ [(e, true)])
+    else sp_diff_walk r s old cbs
+  end.
+Definition sp_notify_diff (new old : list entry) (s : Z) : list entry * list callback :=
+  match sp_diff_walk new s old [] with
+  | (old', cbs) => (old', cbs ++ map (fun e => (e, false)) (filter (fun e => e_src e =? s) old'))
+  end.
+
+(* what it means for a callback stream to mirror the changes: replaying it on the old contents
+   succeeds (every addition is of an absent record, every removal of a present one) and gives the
+   new contents *)
+Fixpoint replay (cbs : list callback) (l : list entry) : option (list entry) :=
+  match cbs with
+  | [] => Some l
+  | (e, true) :: r => if mem e l then None else replay r (l ++ [e])
+  | (e, false) :: r => if mem e l then replay r (remove_first (key_entry_cmp e) l) else None
+  end.
+
+Lemma replay_app c1 c2 l :
+  replay (c1 ++ c2) l = match replay c1 l with Some l' => replay c2 l' | None => None end.
+Proof.
+  revert l. induction c1 as [|[e [|]] c1 IH]; intros l; cbn [app replay]; [reflexivity| |];
+    destruct (mem e l); try reflexivity; apply IH.
+Qed.
+
+Lemma sp_add_replay l e rc l' c : sp_add l e = (rc, l', c) -> replay c l = Some l'.
+Proof.
+  unfold sp_add. destruct (mem e l) eqn:E; intros H; injection H as <- <- <-; cbn [replay]; [reflexivity|].
+  rewrite E. reflexivity.
+Qed.
+
+Lemma sp_remove_replay l e rc l' c : sp_remove l e = (rc, l', c) -> replay c l = Some l'.
+Proof.
+  unfold sp_remove. destruct (mem e l) eqn:E; intros H; injection H as <- <- <-; cbn [replay]; [|reflexivity].
+  rewrite E. reflexivity.
+Qed.
+
+Lemma replay_removals (f : entry -> bool) : forall l pre,
+  (forall x, In x pre -> f x = false) ->
+  replay (map (fun e => (e, false)) (filter f l)) (pre ++ l) = Some (pre ++ filter (fun e => negb (f e)) l).
+Proof.
+  induction l as [|e r IH]; intros pre Hpre; cbn [filter map replay]; [reflexivity|].
+  destruct (f e) eqn:E; cbn [negb map replay].
+  - assert (Hm : mem e (pre ++ e :: r) = true) by (apply mem_iff, in_or_app; right; left; reflexivity).
+    rewrite Hm. rewrite remove_first_app_hit; [apply IH; exact Hpre| |apply key_entry_cmp_refl].
+    intros y Hy. destruct (key_entry_cmp e y) eqn:Ec; [|reflexivity].
+    apply key_entry_cmp_eq in Ec. subst y. rewrite (Hpre e Hy) in E. discriminate.
+  - replace (pre ++ e :: r) with ((pre ++ [e]) ++ r) by (rewrite <- app_assoc; reflexivity).
+    rewrite IH.
+    + rewrite <- app_assoc. reflexivity.
+    + intros x Hx. apply in_app_or in Hx as [Hx|[<-|[]]]; [exact (Hpre x Hx)|exact E].
+Qed.
+
+Lemma sp_src_remove_replay l s rc l' c : sp_src_remove l s = (rc, l', c) -> replay c l = Some l'.
+Proof.
+  unfold sp_src_remove. intros H. injection H as <- <- <-.
+  apply (replay_removals (fun e => e_src e =? s) l []). intros x [].
+Qed.
+
+Lemma sp_copy_walk_replay : forall l s dst cbs rc dst' c,
+  sp_copy_walk l s dst cbs = (rc, dst', c) -> exists c', c = cbs ++ c' /\ replay c' dst = Some dst'.
+Proof.
+  induction l as [|e r IH]; intros s dst cbs rc dst' c; cbn [sp_copy_walk].
+  - intros H. injection H as <- <- <-. exists []. rewrite app_nil_r. split; reflexivity.
+  - destruct (negb (e_src e =? s)).
+    + destruct (mem e dst) eqn:E.
+      * intros H. injection H as <- <- <-. exists []. rewrite app_nil_r. split; reflexivity.
+      * intros H. apply IH in H as (c' & -> & Hr). exists ((e, true) :: c'). rewrite <- app_assoc. split; [reflexivity|].
+        cbn [replay]. rewrite E. exact Hr.
+    + apply IH.
+Qed.
+
+Lemma sp_copy_replay src dst s rc dst' c : sp_copy src dst s = (rc, dst', c) -> replay c dst = Some dst'.
+Proof. intros H. apply sp_copy_walk_replay in H as (c' & -> & Hr). exact Hr. Qed.
+
+(* when no record to be copied is already in the destination (it is empty in rtr_sync), the copy is total *)
+Lemma sp_copy_walk_total : forall l s dst cbs,
+  NoDup l -> (forall e, In e l -> e_src e <> s -> ~ In e dst) ->
+  sp_copy_walk l s dst cbs =
+    (SPKI_SUCCESS, dst ++ filter (fun e => negb (e_src e =? s)) l,
+     cbs ++ map (fun e => (e, true)) (filter (fun e => negb (e_src e =? s)) l)).
+Proof.
+  induction l as [|e r IH]; intros s dst cbs Hnd Hni; cbn [sp_copy_walk filter map].
+  - rewrite !app_nil_r. reflexivity.
+  - inversion Hnd as [|? ? Hne Hnd']. subst.
+    destruct (Z.eqb_spec (e_src e) s) as [Hs|Hs]; cbn [negb].
+    + apply IH; [exact Hnd'|]. intros x Hx. apply Hni. right. exact Hx.
+    + assert (Hm : mem e dst = false) by (apply mem_false, Hni; [left; reflexivity|exact Hs]).
+      rewrite Hm. rewrite IH; [|exact Hnd'|].
+      * cbn [map]. rewrite <- !app_assoc. reflexivity.
+      * intros x Hx Hsx Hin. apply in_app_or in Hin as [Hin|[<-|[]]]; [exact (Hni x (or_intror Hx) Hsx Hin)|contradiction].
+Qed.
+
+(* the specification keeps tables duplicate-free *)
+Lemma sp_add_nodup l e rc l' c : NoDup l -> sp_add l e = (rc, l', c) -> NoDup l'.
+Proof.
+  unfold sp_add. intros Hnd. destruct (mem e l) eqn:E; intros H; injection H as <- <- <-; [exact Hnd|].
+  apply NoDup_snoc; [exact Hnd|apply mem_false; exact E].
+Qed.
+
+Lemma sp_remove_nodup l e rc l' c : NoDup l -> sp_remove l e = (rc, l', c) -> NoDup l'.
+Proof.
+  unfold sp_remove. intros Hnd. destruct (mem e l) eqn:E; intros H; injection H as <- <- <-; [|exact Hnd].
+  apply NoDup_remove_first. exact Hnd.
+Qed.
+
+Lemma sp_copy_walk_nodup : forall l s dst cbs rc dst' c,
+  NoDup dst -> sp_copy_walk l s dst cbs = (rc, dst', c) -> NoDup dst'.
+Proof.
+  induction l as [|e r IH]; intros s dst cbs rc dst' c Hnd; cbn [sp_copy_walk].
+  - intros H. injection H as <- <- <-. exact Hnd.
+  - destruct (negb (e_src e =? s)).
+    + destruct (mem e dst) eqn:E.
+      * intros H. injection H as <- <- <-. exact Hnd.
+      * apply IH. apply NoDup_snoc; [exact Hnd|apply mem_false; exact E].
+    + apply IH. exact Hnd.
+Qed.
+
+Lemma sp_diff_walk_nodup : forall l s old cbs old' c,
+  NoDup old -> sp_diff_walk l s old cbs = (old', c) -> NoDup old'.
+Proof.
+  induction l as [|e r IH]; intros s old cbs old' c Hnd; cbn [sp_diff_walk].
+  - intros H. injection H as <- <-. exact Hnd.
+  - destruct (e_src e =? s); [|apply IH; exact Hnd].
+    destruct (mem e old); apply IH; [apply NoDup_remove_first|]; exact Hnd.
+Qed.
